@@ -9,6 +9,13 @@ LEVEL_NOTE = ("Trusted base: clang 14 front end and CFG builder, the gsa-extract
               "Assumes the shipped configuration (GALOIS_USE_LONGJMP_ABORT, NDEBUG).")
 
 CHECKS = {
+    "C14": ("narrow: exhaustive evaluation of structural necessary conditions on every CFG path of the container "
+            "instantiations of the driver matrix and on the uninstantiated template patterns: next/prev mirror assignments, "
+            "first/last maintenance, construction/destruction paired one-to-one with the size counter, concurrent and "
+            "sequential variants use the same slot, singly linked lists link before publishing and unlink under a check, "
+            "non-void members return on all paths (patterns included), optional's flag paired with construct/destroy. "
+            "Equivalence with the standard containers for all operation histories (value-level) is not decided.",
+            "link-pairing (LINK), counter pairing, sibling-variant agreement, return-on-all-paths over clang AST facts", "4 C14"),
     "C13": ("exhaustive evaluation of the shape obligations that make the disjoint-cover lemma (DESIGN.md C13) applicable, on "
             "every instantiation of the division routines found: ceil-div piece size; upper bound == lower bound with the part "
             "index advanced by one, both clamped by the same min(size); blockLower(id) == blockUpper(id-1); the two binary "
